@@ -209,7 +209,10 @@ func refRunRaw(name string, desc sim.ModelDescription, col []float64, maxDim int
 // drawColumns draws nSets parameter columns sharing one state-width class.
 func drawColumns(w *simrt.Tape, name string, nSets int) (cols [][]float64, maxDim int) {
 	if domains.IsDimensioned(name) {
-		maxDim = 2 + w.Choose(4)
+		maxDim = 1 + w.Choose(4) + 1 // usually 2..5 table rows
+		if w.Choose(5) == 4 {
+			maxDim = 6 + w.Choose(43) // every fifth table is long (up to 48 rows)
+		}
 	}
 	for j := 0; j < nSets; j++ {
 		force := 0
@@ -223,4 +226,75 @@ func drawColumns(w *simrt.Tape, name string, nSets int) (cols [][]float64, maxDi
 		cols = append(cols, c)
 	}
 	return
+}
+
+// thresholdPairs: inputs that a kernel compares with a parameter (or with another input).
+var thresholdPairs = map[string][][2]string{
+	"USLEFineSedimentGeneration": {{"rainfall", "RainThreshold"}},
+	"InstreamFineSediment":       {{"outflow", "bankFullFlow"}},
+	"StorageDissolvedDecay":      {{"outflow", "bankFullFlow"}},
+	"DynamicSednetGully":         {{"year", "YearDisturbance"}, {"year", "GullyEndYear"}},
+	"DynamicSednetGullyAlt":      {{"year", "YearDisturbance"}, {"year", "GullyEndYear"}},
+	"PartitionDemand":            {{"input", "@demand"}},
+}
+
+// snapCoincidences makes some input values coincide exactly with values the kernel compares them
+// with: knots of the cell's own rating table, thresholds, another input series.  Random continuous
+// values never sit exactly on a knot or a threshold, and tie-breaking there is where fast paths
+// and caches disagree in the last bit.  All snapped values stay inside the model's domain.
+func snapCoincidences(w *simrt.Tape, name string, desc sim.ModelDescription, col []float64, maxDim int, inputs [][]float64) bool {
+	if len(inputs) == 0 || len(inputs[0]) == 0 || !w.Bool(30) {
+		return false
+	}
+	T := len(inputs[0])
+	inIdx := func(n string) int {
+		for i, x := range desc.Inputs {
+			if x == n {
+				return i
+			}
+		}
+		return -1
+	}
+	done := false
+	if name == "RatingCurvePartition" {
+		l := layoutOf(desc, maxDim)
+		pi := paramIndex(desc, "inputAmount")
+		n := int(col[l.start[paramIndex(desc, "nPts")]])
+		for k := 0; k < 1+w.Choose(3); k++ {
+			inputs[0][w.Choose(T)] = col[l.start[pi]+w.Choose(n)]
+			done = true
+		}
+	}
+	for _, pr := range thresholdPairs[name] {
+		ii := inIdx(pr[0])
+		if ii < 0 {
+			continue
+		}
+		for k := 0; k < 1+w.Choose(2); k++ {
+			t := w.Choose(T)
+			if pr[1][0] == '@' {
+				if jj := inIdx(pr[1][1:]); jj >= 0 {
+					inputs[ii][t] = inputs[jj][t]
+					done = true
+				}
+			} else if pj := paramIndex(desc, pr[1]); pj >= 0 {
+				inputs[ii][t] = col[layoutOf(desc, maxDim).start[pj]]
+				done = true
+			}
+		}
+	}
+	return done
+}
+
+// pickModel draws a model name: uniformly over the catalogue, but every fifth draw is taken from
+// the models with special wrapper paths (table parameters, variable-length state vectors), which
+// would otherwise be 4 of 41.
+var specialModels = []string{"RatingCurvePartition", "Storage", "GR4J", "Lag"}
+
+func pickModel(w *simrt.Tape) string {
+	names := catalog()
+	if w.Choose(5) == 4 {
+		return specialModels[w.Choose(len(specialModels))]
+	}
+	return names[w.Choose(len(names))]
 }
